@@ -7,7 +7,7 @@
 (*                   of depth D is printed as one JSON line (input for the  *)
 (*                   conformance harness)                                   *)
 (*   -simulate       random walks through the same Next                     *)
-EXTENDS StamAll, Json, SequencesExt
+EXTENDS StamAll, StamQuery, Json, SequencesExt
 
 CONSTANTS MaxRes, MaxSets, MaxAnns, MaxData, MaxKeys, Depth, Scenario, Size, Prelude, Reads, DevShift, EmitAll, P1, P2
 
@@ -207,7 +207,7 @@ Tuning == ~EmitAll
 Adding == Scenario \notin {"remove", "offsets", "related", "textops"}
 \* C07: one resource per behaviour, over every text up to P1 characters of the alphabet selected by P2
 TextAlphabet == CASE P2 = 1 -> {11, 41, 12} [] P2 = 2 -> {11, 22, 32} [] P2 = 3 -> {11, 31, 21} [] OTHER -> {11, 14, 41}
-TextsUpTo(n, A) == UNION {[1..k -> A] : k \in 0..n}
+
 Removing == Scenario \in {"all", "remove", "core"}
 \* C18: after protecting, every annotation that selects text validates (a law of the specification itself)
 \* C16: every transposition in the store links piecewise identical text (also the ones transpose() returns)
@@ -378,11 +378,52 @@ TextOpOps ==
              : c \in TextContainers}
        \cup SegmentOps
 
+----------------------------------------------------------------------------
+(* C08: queries asked of the current state (every query in both forms: STAMQL text and programmatically built)      *)
+QAnnIds == {st.anns[x].id : x \in {y \in LiveAnns(st) : st.anns[y].id # ""}}
+QResIds == {st.res[r].id : r \in LiveRes(st)}
+QSetKeys == UNION {{<<st.sets[s].id, st.sets[s].keys[k].id>> : k \in {k \in 1..Len(st.sets[s].keys) : st.sets[s].keys[k].alive}} : s \in LiveSets(st)}
+QOpVals == {<<"=", StrVal("v1")>>, <<"!=", StrVal("v1")>>, <<"=", IntVal(1)>>, <<">", IntVal(0)>>, <<"<=", IntVal(-7)>>, <<"=", TypedVal("bool", 1, <<>>)>>,
+            <<"=", NullVal>>, <<">=", TypedVal("float", 3, <<>>)>>, <<"<", TypedVal("datetime", 62, <<>>)>>}
+QNeedles == UNION {{<<st.res[r].text[i]>> : i \in DOMAIN st.res[r].text} \cup {SubSeq(st.res[r].text, i, i + 1) : i \in 1..(Len(st.res[r].text) - 1)} : r \in LiveRes(st)}
+QAnnCs ==
+    {CId(i) : i \in QAnnIds}
+    \cup {CKey(p[1], p[2], q) : p \in QSetKeys, q \in BOOLEAN}
+    \cup {CKeyVal(p[1], p[2], ov[1], ov[2], FALSE) : p \in QSetKeys, ov \in QOpVals}
+    \cup {CValue(ov[1], ov[2]) : ov \in QOpVals}
+    \cup {CRes(i, q) : i \in QResIds, q \in BOOLEAN}
+    \cup {CSet(st.sets[s].id, q) : s \in LiveSets(st), q \in BOOLEAN}
+    \cup {CAnn(i, FALSE, r) : i \in QAnnIds, r \in BOOLEAN} \cup {CAnn(i, TRUE, FALSE) : i \in QAnnIds}
+    \cup {CText(n, nc) : n \in QNeedles, nc \in BOOLEAN}
+QDataCs ==
+    {CKey(p[1], p[2], FALSE) : p \in QSetKeys}
+    \cup {CKeyVal(p[1], p[2], ov[1], ov[2], FALSE) : p \in QSetKeys, ov \in QOpVals}
+    \cup {CValue(ov[1], ov[2]) : ov \in QOpVals}
+    \cup {CSet(st.sets[s].id, FALSE) : s \in LiveSets(st)}
+    \cup {CAnn(i, q, FALSE) : i \in QAnnIds, q \in BOOLEAN}
+\* a smaller menu for combinations
+QAnnCore == {c \in QAnnCs : c.k \in {"Key", "Res", "Set", "Ann"} \/ (c.k = "KeyVal" /\ c.op = "=" /\ c.v.t = "str") \/ (c.k = "Text" /\ c.b = "exact" /\ Len(c.v.l) = 1)}
+QSubs == {Q("SELECT", "ANNOTATION", "y", <<CAnnVar("x", q, FALSE)>>, <<>>) : q \in BOOLEAN}
+         \cup {Q("SELECT", "ANNOTATION", "y", <<CAnnVar("x", FALSE, TRUE)>>, <<>>), Q("SELECT", "ANNOTATION", "y", <<CTextVar("x")>>, <<>>),
+               Q("SELECT", "DATA", "y", <<CAnnVar("x", FALSE, FALSE)>>, <<>>), Q("SELECT", "DATA", "y", <<CAnnVar("x", TRUE, FALSE)>>, <<>>)}
+         \cup {Q("SELECT", "ANNOTATION", "y", <<CRelation("x", kw)>>, <<>>) : kw \in {"EQUALS", "EMBEDS", "EMBEDDED", "OVERLAPS", "BEFORE", "AFTER", "PRECEDES", "SUCCEEDS", "SAMEBEGIN", "SAMEEND"}}
+QueriesOf ==
+    {Q("SELECT", "ANNOTATION", "x", <<>>, <<>>), Q("SELECT", "DATA", "x", <<>>, <<>>)}
+    \cup {Q("SELECT", "ANNOTATION", "x", <<c>>, <<>>) : c \in QAnnCs}
+    \cup {Q("SELECT", "DATA", "x", <<c>>, <<>>) : c \in QDataCs}
+    \cup {Q("SELECT", "ANNOTATION", "x", <<c1, c2>>, <<>>) : c1 \in QAnnCore, c2 \in QAnnCore}
+    \cup {Q("SELECT", "DATA", "x", <<c1, c2>>, <<>>) : c1 \in {c \in QDataCs : c.k # "KeyVal"}, c2 \in {c \in QDataCs : c.k # "KeyVal"}}
+    \cup {Q("SELECT", "ANNOTATION", "x", <<CUnion(<<c1, c2>>)>>, <<>>) : c1 \in QAnnCore, c2 \in QAnnCore}
+    \cup {Q("SELECT", "ANNOTATION", "x", <<c, CLimit(l[1], l[2])>>, <<>>) : c \in {d \in QAnnCore : d.k \in {"Res", "Key"}}, l \in {<<0, 1>>, <<0, 2>>, <<1, 0>>, <<-1, 0>>, <<0, -1>>, <<1, 2>>, <<-2, -1>>}}
+    \cup {Q("SELECT", "ANNOTATION", "x", <<c>>, <<sq>>) : c \in {d \in QAnnCore : d.k \in {"Res", "Key", "Set"}}, sq \in QSubs \cup {Optional(z) : z \in QSubs}}
+QueryOps == {RO("Query", [q |-> q, form |-> f]) : q \in QueriesOf, f \in {"text", "built"}}
+
 Has(x) == x \in Reads
 ReadOps ==
     (IF Has("lookup") THEN SetToSeq(LookupOps) ELSE <<>>)
     \o (IF Has("offsets") THEN SetToSeq(OffsetOps) \o SetToSeq(AnnOps) \o SetToSeq(ReportOps) ELSE <<>>)
     \o (IF Has("anntext") THEN SetToSeq(AnnOps) \o SetToSeq(ReportOps) ELSE <<>>)
+    \o (IF Has("queries") THEN SetToSeq(QueryOps) ELSE <<>>)
     \o (IF Has("webanno") THEN SetToSeq({RO("WebAnno", [ann |-> ByH(x), tmpl |-> t, ns |-> n]) : x \in LiveAnns(st), t \in BOOLEAN, n \in BOOLEAN}) ELSE <<>>)
     \o (IF Has("validate") THEN <<RO("Validate", [x |-> 0])>> ELSE <<>>)
     \o (IF Has("bytes") THEN SetToSeq(ByteOps) ELSE <<>>)
